@@ -4,8 +4,8 @@ A temporary copy of the three packages (outside /repo and /verif) gets numberspe
 sync.Mutex, *sync.Cond, sync.NewCond, the go statement and the digit-source call go through the deterministic
 scheduler harness/vsync; any other use of sync, go statements, channels, select or atomics anywhere in the
 packages makes the instrumentation fail loudly (new synchronisation must not slip past the model). The explorer
-(harness/explore) is built against the copy, run over small reader programs (exhaustive DFS and random walks),
-and a sample of the recorded event traces is validated against the Coq transition system by the extracted
+(harness/explore) is built against the copy, run over small reader programs (At calls, forward traversals with early exit, backward traversals of
+bounded views; exhaustive DFS and random walks), and a sample of the recorded event traces is validated against the Coq transition system by the extracted
 acceptor (ocaml/conc.ml). The copy and its build output are removed at the end.
 """
 import os, re, shutil, subprocess, tempfile, glob, json, hashlib, time
@@ -32,12 +32,15 @@ def instrument(repo, tmp):
                                      (r'\bsync\.NewCond\(', 'vsyncx.NewCond('),
                                      (r'\bgo result\.run\(\)', 'vsyncx.Go(result.run)'),
                                      (r'\bm\.iter\(\)', 'vsyncx.Iter(m.iter)'),
+                                     (r'\bm\.wait\(', 'vsyncx.WaitCall(m.wait, '),
                                      (r'^\t"sync"$', '\t"vsyncx"')):
                         rewritten, n = re.subn(pat, rep, rewritten, flags=re.M)
                         counts[pat] = n
                     left = re.sub(r'//[^\n]*', '', rewritten)
                     if re.search(r'\bsync\.', left):
                         problems.append('%s: a use of package sync that the model does not know: %s' % (f, re.search(r'\bsync\.\w+', left).group(0)))
+                    if re.search(r'\.wait\(', left):
+                        problems.append('%s: a call of wait that the instrumentation does not wrap' % f)
                     if re.search(r'^\s*go\s', left, flags=re.M) or re.search(r'\bgo func\b', left):
                         problems.append('%s: a go statement that the model does not know' % f)
                     for pat, n in counts.items():
@@ -84,7 +87,8 @@ def configs(tier, seed):
     out = []
     vers = ['v1', 'v2', 'v3']
     srcs = [0, 1, 99, 100, 101, 150, -1]
-    two = ['50;150', '0;100', '99;100', '150;50', '100;0', '250;10', '5;5']
+    two = ['50;150', '0;100', '99;100', '150;50', '100;0', '250;10', '5;5',
+           's0x3;150', 'b120;50', 's95x10;b101', '250;s99x2', 'b100;b200']
     i = 0
     for prog in two:
         for src in srcs:
@@ -92,14 +96,15 @@ def configs(tier, seed):
             i += 1
             for v in ([ver] if ver else vers):
                 out.append((v, src, prog, 'dfs', 40000 if tier == 'quick' else 400000, 12))
-    three = ['0;100;250', '150;50;99', '10;110;110', '200;0;100']
+    three = ['0;100;250', '150;50;99', '10;110;110', '200;0;100', 's0x5;b150;100', 's98x4;s0x101;b99']
     for prog in three:
         for src in ([101, -1] if tier == 'quick' else [0, 100, 101, 250, -1]):
             v = vers[i % 3]
             i += 1
             out.append((v, src, prog, 'dfs', 15000 if tier == 'quick' else 300000, 8))
             out.append((v, src, prog, 'random', 6000 if tier == 'quick' else 100000, 8))
-    multi = ['150,20;99,100', '0,100,200;250', '50,150;150,50;100', '99;100;101;102', '300,0;0,300;150;150']
+    multi = ['150,20;99,100', '0,100,200;250', '50,150;150,50;100', '99;100;101;102', '300,0;0,300;150;150',
+             's98x4,0;b101,150', 's0x120,250;b100;b200,s150x60']
     for prog in multi:
         for src in ([150, -1] if tier == 'quick' else [100, 150, 301, -1]):
             v = vers[i % 3]
